@@ -151,6 +151,11 @@ def apply(kind: Kind, obj, o, rnd):
             other = {p[0]: p[1] for p in pairs}
             if not kind.plain_eq:
                 other = kind.cls(other)
+            elif rnd.random() < 0.5:
+                # the same mapping held by another mapping type, in another insertion order: equality is about the content
+                import collections
+                rev = list(reversed(list(other.items())))
+                other = rnd.choice([collections.OrderedDict, dict, collections.UserDict])(rev)
             a, b = (obj == other), (obj != other)
             if a == b:
                 return obj, ["eq-ne-inconsistent", 0]
